@@ -21,7 +21,7 @@ impl Data {
     ///
     /// The given position must be <= the length of the buffer to be valid.
     pub fn set_position(&mut self, position: usize) {
-        self.pos = position;
+        self.pos = position.min(self.len);
     }
 
     pub fn len(&self) -> usize {
